@@ -418,6 +418,7 @@ def write_evidence(prop, tier, seed, wall, cov, audit, extra, violations):
         trusted_base=list(prop.trusted_base) + audit.get('trusted_base', []),
         theorems=audit.get('theorems', {}),
         table_obligations=audit.get('tables', {}),
+        system_theorems=audit.get('system_theorems', 'audited in the thorough tier'),
         rule=prop.rule,
     )
     coverage.update(cov)
